@@ -69,10 +69,11 @@ class ExactModel(gpytorch.models.ExactGP):
         super().__init__(X, y, lik)
         P = gpytorch.priors
         self.prior_spec = {}
+        shared = P.GammaPrior(2.0, 3.0) if "shared" in priors else None  # ONE prior object registered on two parameters
         self.mean_module = gpytorch.means.ConstantMean(batch_shape=bs, constant_prior=P.NormalPrior(0.0, 2.0) if "const" in priors else None)
-        base = K.ScaleKernel(K.RBFKernel(batch_shape=bs, lengthscale_prior=P.GammaPrior(2.0, 3.0) if "ls" in priors else None),
-                             batch_shape=bs, outputscale_prior=(P.SmoothedBoxPrior(0.1, 4.0) if "os_box" in priors else
-                                                                P.HalfCauchyPrior(1.5) if "os" in priors else None))
+        base = K.ScaleKernel(K.RBFKernel(batch_shape=bs, lengthscale_prior=shared or (P.GammaPrior(2.0, 3.0) if "ls" in priors else None)),
+                             batch_shape=bs, outputscale_prior=shared or (P.SmoothedBoxPrior(0.1, 4.0) if "os_box" in priors else
+                                                                          P.HalfCauchyPrior(1.5) if "os" in priors else None))
         if fam in ("exact", "fixednoise", "fixednoise_learn"):
             self.covar_module = base
         elif fam == "kiss":
